@@ -9,8 +9,8 @@ Confirmation is done in a scratch worktree of /repo under /dev/shm (removed afte
   1. the patch applies and the crate builds,
   2. the repository's own suite passes with the patch,
   3. the demonstration fails with the patch and passes without it.
-Then the patch is applied to /repo itself (git apply), the listed checks run, and /repo is
-restored (git checkout -- .). Nothing is ever committed to /repo."""
+Then the listed checks run against a second scratch worktree with the patch applied
+(VERIF_REPO; the simulators are built privately for it). /repo itself is never touched."""
 import json, os, shutil, subprocess, sys, time
 
 REPO = "/repo"
@@ -54,16 +54,22 @@ def confirm(patch, demo):
 
 
 def run_checks(patch, checks):
-    if sh(f"git -C {REPO} status --porcelain").stdout.strip():
-        return {"error": "/repo not clean"}
-    res = {}
-    r = sh(f"git -C {REPO} apply {patch}")
+    """Checks run against a scratch worktree of /repo with the patch applied (VERIF_REPO), so
+    /repo itself is never touched and several changes can be examined side by side."""
+    wt = f"/dev/shm/seeded-run-{os.getpid()}"
+    sh(f"git -C {REPO} worktree remove --force {wt}")
+    r = sh(f"git -C {REPO} worktree add -q --detach {wt} HEAD")
     if r.returncode != 0:
-        return {"error": "apply: " + r.stderr}
+        return {"error": "worktree: " + r.stderr}
+    res = {}
+    env = f"VERIF_REPO={wt} VERIF_EVIDENCE_DIR={VERIF}/out/evidence-seeded-{os.getpid()}"
     try:
+        r = sh(f"git apply {patch}", cwd=wt)
+        if r.returncode != 0:
+            return {"error": "apply: " + r.stderr}
         for c in checks:
             t0 = time.time()
-            r = sh(f"VERIF_EVIDENCE_DIR={VERIF}/out/evidence-seeded timeout 2400 ./check {c} quick 2>&1 | tail -40", cwd=VERIF)
+            r = sh(f"{env} timeout 3000 ./check {c} quick 2>&1 | tail -40", cwd=VERIF)
             lines = r.stdout.splitlines()
             viol = [i for i, l in enumerate(lines) if l.startswith("VIOLATION")]
             res[c] = {
@@ -74,7 +80,10 @@ def run_checks(patch, checks):
                 "first": (lines[viol[0] + 1].strip()[:300] if viol and viol[0] + 1 < len(lines) else ""),
             }
     finally:
-        sh(f"git -C {REPO} checkout -- .")
+        sh(f"{env} ./check drop-alt", cwd=VERIF)
+        sh(f"rm -rf {VERIF}/out/evidence-seeded-{os.getpid()}")
+        sh(f"git -C {REPO} worktree remove --force {wt}")
+        shutil.rmtree(wt, ignore_errors=True)
     return res
 
 
@@ -99,12 +108,26 @@ def main():
             "id": sid, "breaks_property": prop, "needs_to_manifest": needs,
             "origin": "sub-agent given only the property text and a scratch worktree",
             "confirmed": {k: v for k, v in conf.items() if not k.endswith("out")},
-            "ran": [f"./check {c} quick (patch applied to /repo with git apply, reverted afterwards)" for c in checks],
+            "ran": [f"./check {c} quick (against a scratch worktree of /repo with the patch applied)" for c in checks],
             "results": res,
             "caught_by": [c for c in checks if res.get(c, {}).get("caught")],
         }
         json.dump(meta, open(f"{d}/meta.json", "w"), indent=1)
         print(sid, "caught by", meta["caught_by"] or "NOTHING", json.dumps(res)[:600])
+    elif mode == "addall":
+        # tools/seeded.py addall <dir> <par> <id> [<id> ...]: files <dir>/<id>.diff .rs .txt
+        import concurrent.futures
+        d, par, ids = sys.argv[2], int(sys.argv[3]), sys.argv[4:]
+        jobs = max(2, 16 // par)
+        def one(sid):
+            needs = open(f"{d}/{sid}.txt").read().strip().replace("\n", " ")
+            env = dict(os.environ, VERIF_JOBS=str(jobs))
+            r = subprocess.run([sys.argv[0], "add", sid, sid.split("-")[0], f"{d}/{sid}.diff", f"{d}/{sid}.rs", needs],
+                               capture_output=True, text=True, env=env)
+            return sid, r.stdout + r.stderr
+        with concurrent.futures.ThreadPoolExecutor(par) as ex:
+            for sid, out in ex.map(one, ids):
+                print(out.strip(), flush=True)
     elif mode == "run":
         ids = sys.argv[2:] or sorted(os.listdir(f"{VERIF}/seeded"))
         for sid in ids:
